@@ -9,7 +9,7 @@ from ..model import Model, numel
 from ..seeds import digest
 from ..shrinkspec import spec_candidates
 from ..spec import Gen, LEAF_SHAPES, gen_mtl
-from ..world import EPS, World, compare, expect_backward, expect_mtl, gen_sched, run_call
+from ..world import spec_eps, EPS, World, compare, expect_backward, expect_mtl, gen_sched, run_call
 from . import c02 as C02
 
 ID = "C07"
@@ -192,7 +192,7 @@ def _run(spec, sched, call, pre, model, exp_updates, eps, stats, tag):
 
 def execute(scn):
     spec, call, m = scn["spec"], scn["call"], scn["m"]
-    eps = EPS[spec["dtype"]]
+    eps = spec_eps(spec)
     model = Model(spec)
     stats, events, viols, sets = {}, [], [], {}
     from ..world import require_valid
